@@ -1,4 +1,322 @@
-(* Case runner and spec checker (T3) for C10 — stub. *)
-From WI Require Import Lib.Base Lib.Info Model.Walk.
-Definition run_C10 (op : bytes) (input : arg) : arg := AL [].
-Definition check_C10 (op : bytes) (input impl : arg) : arg := AL [].
+(* Case runner and spec checker (T3) for C10.
+   Input of a case:  (argv0 (argv...) stdin (tree...) ((path single-run-stdout single-run-exit)...))
+   tree node:        (kind name payload)  kind 0 Reg 1 Dir 2 LinkFile 3 LinkDir 4 LinkNone 5 Fifo 6 Sock
+   Observation:      (stdout exit blocked crashed) *)
+From WI Require Import Lib.Base Lib.Info Lib.Strings Model.Walk.
+Open Scope N_scope.
+
+Fixpoint node_of_arg (a : arg) : node :=
+  match a with
+  | AL (AZ k :: AB name :: rest) =>
+      let kids := match rest with AL l :: _ => map node_of_arg l | _ => [] end in
+      let data := match rest with AB d :: _ => d | _ => [] end in
+      match k with
+      | 0%Z => Reg name data
+      | 1%Z => Dir name kids
+      | 2%Z => LinkFile name data
+      | 3%Z => LinkDir name kids
+      | 4%Z => LinkNone name
+      | 5%Z => Fifo name
+      | _ => Sock name
+      end
+  | _ => Sock []
+  end.
+
+Definition oracle_entry (o : list arg) (p : bytes) : option arg :=
+  find (fun e => bytes_eqb (arg_bytes (arg_nth 0 e)) p) o.
+
+(* the description text of a file, read off the recorded single-file run *)
+Definition body_of_oracle (o : list arg) (p c : bytes) : bytes :=
+  match oracle_entry o p with
+  | Some e =>
+      let out := arg_bytes (arg_nth 1 e) in
+      if prefix_of (p ++ [58; 32]) out then drop (length p + 2) out
+      else bs "<single-file run printed no report for this path>" ++ out
+  | None => bs "<no single-file run recorded for " ++ p ++ bs ">"
+  end.
+
+(* the code under test: the repaired tree *)
+Definition quirks_now : quirks := repaired.
+
+Definition run_C10 (op : bytes) (input : arg) : arg :=
+  let argv0 := arg_bytes (arg_nth 0 input) in
+  let argv := map arg_bytes (arg_list (arg_nth 1 input)) in
+  let stdin := arg_bytes (arg_nth 2 input) in
+  let fs := map node_of_arg (arg_list (arg_nth 3 input)) in
+  let oracle := arg_list (arg_nth 4 input) in
+  match main_run quirks_now fs argv stdin with
+  | (es, st) =>
+      let out := stdout_of (body_of_oracle oracle) argv0 es in
+      match st with
+      | Exit n => AL [AB out; AZ n; AZ 0; AZ 0]
+      | Blocked _ => AL [AB out; AZ (-1); AZ 1; AZ 0]
+      | Crashed _ => AL [AB out; AZ 2; AZ 0; AZ 1]
+      end
+  end.
+
+(* ====================================================================================
+   The spec checker: the property evaluated on what the implementation printed, written
+   without the model's walk, sort, path or flag functions.
+   ==================================================================================== *)
+
+(* strict byte-wise order on names *)
+Fixpoint lex_lt (a b : bytes) : bool :=
+  match a, b with
+  | _, [] => false
+  | [], _ :: _ => true
+  | x :: a', y :: b' => (x <? y) || ((x =? y) && lex_lt a' b')
+  end.
+
+Section Sel.
+  Context {A : Type}.
+  (* smallest key of a non-empty list, and the others in their order *)
+  Fixpoint take_min (best : bytes * A) (l : list (bytes * A)) : (bytes * A) * list (bytes * A) :=
+    match l with
+    | [] => (best, [])
+    | x :: r =>
+        if lex_lt (fst x) (fst best)
+        then match take_min x r with (m, others) => (m, best :: others) end
+        else match take_min best r with (m, others) => (m, x :: others) end
+    end.
+  Fixpoint sel_sort_fuel (fuel : nat) (l : list (bytes * A)) : list (bytes * A) :=
+    match fuel, l with
+    | S f, x :: r => match take_min x r with (m, others) => m :: sel_sort_fuel f others end
+    | _, _ => []
+    end.
+  Definition sel_sort (l : list (bytes * A)) := sel_sort_fuel (length l) l.
+End Sel.
+
+(* what the scan is expected to print, entry by entry *)
+Inductive item : Type :=
+| IFile (path : bytes) (depth : nat)   (* a regular file: must be reported *)
+| ILink (path : bytes)                 (* a link to a regular file: reported like the file, or skipped *)
+| IBad (path : bytes).                 (* anything else that is not a directory: reported somehow, or skipped *)
+
+Definition name_of (n : node) : bytes :=
+  match n with
+  | Reg a _ => a | Dir a _ => a | LinkFile a _ => a | LinkDir a _ => a
+  | LinkNone a => a | Fifo a => a | Sock a => a
+  end.
+
+(* [pre] is the directory's path with a trailing slash (or empty for the working directory);
+   [d] counts the directories between the argument and this entry *)
+Fixpoint items_of (n : node) : bytes -> nat -> list item :=
+  match n with
+  | Reg a _ => fun pre d => [IFile (pre ++ a) d]
+  | LinkFile a _ => fun pre _ => [ILink (pre ++ a)]
+  | Dir a ch =>
+      let subs := map (fun c => (name_of c, items_of c)) ch in
+      fun pre d => flat_map (fun s => snd s (pre ++ a ++ [47]) (S d)) (sel_sort subs)
+  | LinkDir a _ | LinkNone a | Fifo a | Sock a => fun pre _ => [IBad (pre ++ a)]
+  end.
+Definition items_in (ch : list node) (pre : bytes) : list item :=
+  flat_map (fun s => snd s pre 0%nat) (sel_sort (map (fun c => (name_of c, items_of c)) ch)).
+
+(* the arguments the checker understands: plain relative paths, "./" and "/" decorations *)
+Fixpoint split47 (cur : bytes) (l : bytes) : list bytes :=
+  match l with
+  | [] => [rev cur]
+  | c :: r => if c =? 47 then rev cur :: split47 [] r else split47 (c :: cur) r
+  end.
+Definition plain (c : bytes) : bool := negb (bytes_eqb c [] || bytes_eqb c [46]).
+
+Fixpoint find_name (a : bytes) (l : list node) : option node :=
+  match l with
+  | [] => None
+  | n :: r => if bytes_eqb (name_of n) a then Some n else find_name a r
+  end.
+
+Inductive what : Type := WFile (n : node) | WDir (ch : list node) | WFifo | WOther | WNone.
+
+Fixpoint descend (cur : list node) (cs : list bytes) : what :=
+  match cs with
+  | [] => WDir cur
+  | c :: rest =>
+      match find_name c cur with
+      | None => WNone
+      | Some n =>
+          let through := match n with Dir _ ch | LinkDir _ ch => Some ch | _ => None end in
+          match rest, through with
+          | [], Some ch => WDir ch
+          | [], None => match n with
+                        | Reg _ _ | LinkFile _ _ => WFile n
+                        | LinkNone _ => WNone
+                        | Fifo _ => WFifo
+                        | _ => WOther
+                        end
+          | _, Some ch => descend ch rest
+          | _, None => WNone
+          end
+      end
+  end.
+
+Definition ends_in_slash_or_dot (arg : bytes) : bool :=
+  match rev (split47 [] arg) with
+  | last :: _ :: _ => negb (plain last)
+  | _ => false
+  end.
+
+Definition classify (fs : list node) (arg : bytes) : what :=
+  match arg with
+  | [] => WNone
+  | _ =>
+      match descend fs (filter plain (split47 [] arg)) with
+      | WFile n => if ends_in_slash_or_dot arg then WNone else WFile n
+      | WOther => if ends_in_slash_or_dot arg then WNone else WOther
+      | WFifo => if ends_in_slash_or_dot arg then WNone else WFifo
+      | w => w
+      end
+  end.
+
+(* the path prefix under which the entries of a directory argument are reported *)
+Definition prefix_for (arg : bytes) : bytes :=
+  match filter plain (split47 [] arg) with
+  | [] => []
+  | cs => join [47] cs ++ [47]
+  end.
+
+Definition single_of (o : list arg) (p : bytes) : option bytes :=
+  match oracle_entry o p with
+  | Some e => if Z.eqb (arg_Z (arg_nth 2 e)) 0 then Some (arg_bytes (arg_nth 1 e)) else None
+  | None => None
+  end.
+
+(* drop one report: its first line and the indented lines after it *)
+Fixpoint drop_line (s : bytes) : bytes :=
+  match s with [] => [] | c :: r => if c =? 10 then r else drop_line r end.
+Fixpoint drop_indented (fuel : nat) (s : bytes) : bytes :=
+  match fuel with
+  | O => s
+  | S f => match s with 32 :: _ => drop_indented f (drop_line s) | _ => s end
+  end.
+Definition skip_report (s : bytes) : bytes := drop_indented (length s) (drop_line s).
+
+Definition verdict (msg : string) (p : bytes) : arg := AB (bs msg ++ p).
+Arguments verdict msg%string p.
+
+Fixpoint consume (o : list arg) (items : list item) (rest : bytes) : arg :=
+  match items with
+  | [] =>
+      if is_nilb rest then AL []
+      else AS "output continues after the last expected report (a duplicate, misplaced or unexpected report)"
+  | IFile p d :: tl =>
+      match single_of o p with
+      | Some s =>
+          if prefix_of s rest then consume o tl (drop (length s) rest)
+          else if Nat.ltb 1000 d
+          then verdict "a regular file nested deeper than 1000 directories is not reported: " (drop (length p - 40) p)
+          else verdict "a regular file is not reported at its place as in its single-file run (missing, misplaced, duplicated earlier, or suppressed by an earlier entry): " p
+      | None =>   (* the file cannot even be inspected alone (path beyond the system limit): no demand *)
+          if prefix_of (p ++ [58; 32]) rest then consume o tl (skip_report rest) else consume o tl rest
+      end
+  | ILink p :: tl =>
+      match single_of o p with
+      | Some s => if prefix_of s rest then consume o tl (drop (length s) rest) else consume o tl rest
+      | None => consume o tl rest
+      end
+  | IBad p :: tl =>
+      if prefix_of (p ++ [58; 32]) rest then consume o tl (skip_report rest) else consume o tl rest
+  end.
+
+(* argument vectors the checker understands: [-r|--r|-r=true]* [--] paths *)
+Fixpoint spec_flags (r : bool) (argv : list bytes) : option (bool * list bytes) :=
+  match argv with
+  | [] => Some (r, [])
+  | a :: rest =>
+      if bytes_eqb a (bs "-r") || bytes_eqb a (bs "--r") || bytes_eqb a (bs "-r=true") then spec_flags true rest
+      else if bytes_eqb a (bs "--") then Some (r, rest)
+      else match a with
+           | 45 :: _ :: _ => None
+           | _ => Some (r, argv)
+           end
+  end.
+
+(* expected items of the arguments up to the first one that must be refused *)
+Fixpoint expect (fs : list node) (r : bool) (args : list bytes) : list item * bool * bool :=
+  (* (items, refused, lenient exit) *)
+  match args with
+  | [] => ([], false, false)
+  | a :: rest =>
+      match classify fs a with
+      | WNone => ([], true, false)
+      | WDir ch =>
+          if r then match expect fs r rest with (it, rf, le) => (items_in ch (prefix_for a) ++ it, rf, le) end
+          else ([], true, false)
+      | WFile (Reg _ _) => match expect fs r rest with (it, rf, le) => (IFile a 0 :: it, rf, le) end
+      | WFile _ => match expect fs r rest with (it, rf, le) => (ILink a :: it, rf, le) end
+      | WOther | WFifo => match expect fs r rest with (it, rf, _) => (IBad a :: it, rf, true) end
+      end
+  end.
+
+(* the arguments before the first FIFO that is named explicitly: opening it waits for a writer,
+   as every Unix filter does; this is not a directory entry met during a scan *)
+Fixpoint before_named_fifo (fs : list node) (args : list bytes) : option (list bytes) :=
+  match args with
+  | [] => None
+  | a :: rest =>
+      match classify fs a with
+      | WFifo => Some []
+      | _ => match before_named_fifo fs rest with Some l => Some (a :: l) | None => None end
+      end
+  end.
+
+Definition has_dotdot (a : bytes) : bool := existsb (fun c => bytes_eqb c [46; 46]) (split47 [] a).
+Definition is_abs (a : bytes) : bool := match a with 47 :: _ => true | _ => false end.
+
+Definition check_C10 (op : bytes) (input impl : arg) : arg :=
+  let argv := map arg_bytes (arg_list (arg_nth 1 input)) in
+  let fs := map node_of_arg (arg_list (arg_nth 3 input)) in
+  let oracle := arg_list (arg_nth 4 input) in
+  let out := arg_bytes (arg_nth 0 impl) in
+  let code := arg_Z (arg_nth 1 impl) in
+  if arg_bool (arg_nth 2 impl) then
+    (* blocked: only acceptable while waiting on a FIFO named as an argument, after everything
+       before it has been reported *)
+    match spec_flags false argv with
+    | Some (r, (_ :: _) as args) =>
+        match before_named_fifo fs args with
+        | Some pre =>
+            match expect fs r pre with
+            | (items, false, _) =>
+                match consume oracle items out with
+                | AL [] => AL []
+                | _ => AS "the run blocked (killed after the timeout) before reaching the FIFO named as an argument: later entries are never reported"
+                end
+            | _ => AS "the run blocked (killed after the timeout): later entries are never reported"
+            end
+        | None => AS "the run blocked (killed after the timeout): later entries are never reported"
+        end
+    | _ => AS "the run blocked (killed after the timeout): later entries are never reported"
+    end
+  else if arg_bool (arg_nth 3 impl) then AS "the process crashed (Go panic): the scan was aborted"
+  else
+    match spec_flags false argv with
+    | None => AL []                                   (* other flags: not the subject of this property *)
+    | Some (r, args) =>
+        match args with
+        | [] | [] :: _ | [45] :: _ =>
+            (* standard input: described like the same bytes in a file *)
+            match single_of oracle (bs "/dev/stdin") with
+            | Some s =>
+                if negb (Z.eqb code 0) then AS "standard input: non-zero exit status"
+                else if bytes_eqb out (drop 12 s) then AL []
+                else AS "standard input is not described like the same bytes in a file"
+            | None => AL []
+            end
+        | _ =>
+            if existsb has_dotdot args || existsb is_abs args then AL []
+            else
+              match expect fs r args with
+              | (items, refused, lenient) =>
+                  if refused then
+                    if Z.eqb code 0 then AS "a directory without -r or a nonexistent path was not refused with a non-zero exit status"
+                    else if is_nilb out then AL []
+                    else consume oracle items out
+                  else
+                    match consume oracle items out with
+                    | AL [] => if Z.eqb code 0 || lenient then AL [] else AS "non-zero exit status though every argument exists and directories were given with -r"
+                    | v => v
+                    end
+              end
+        end
+    end.
